@@ -64,6 +64,7 @@ type Prog struct {
 	finalFa           map[string]bool     // fa function of a field declared final
 	mayLockCache      map[*ssa.Function]bool
 	paramAlias        map[*ssa.Function]map[string]string // contract's parameter name -> current name
+	baseCallees       map[string]map[string]bool          // unit key -> calls it contained when the baseline was written
 	MissingTargets    []*MissingTarget
 	FinalChecks       []*FinalCheck       // one per declared final field
 	ContractFilesUsed []string
